@@ -103,7 +103,42 @@ func defaultVerif() string {
 	return "/verif"
 }
 
+// runAll is a development aid for mutation sweeps: one load, every property, quick tier.
+func runAll(repo, verif string) int {
+	prog, err := fw.Load(fw.LoadOpts{Dir: repo})
+	if err != nil {
+		fmt.Println("UNDECIDED all: cannot load", err)
+		return 1
+	}
+	ids := make([]string, 0, len(props.All))
+	for id := range props.All {
+		ids = append(ids, id)
+	}
+	sort.Strings(ids)
+	rc := 0
+	for _, id := range ids {
+		c := fw.NewCtx(prog, id, "quick")
+		func() {
+			defer func() {
+				if r := recover(); r != nil {
+					c.Undecided("internal", "analyser panic", fmt.Sprint(r))
+				}
+			}()
+			props.All[id](c)
+		}()
+		r := c.Finish(verif, 0, "bin/gmslverif check all")
+		fmt.Printf("--- %s exit=%d\n", id, r)
+		if r != 0 {
+			rc = 1
+		}
+	}
+	return rc
+}
+
 func run(id, tier, repo, verif string) (code int) {
+	if id == "all" {
+		return runAll(repo, verif)
+	}
 	fn, ok := props.All[id]
 	if !ok {
 		fmt.Printf("unknown property %s\n", id)
